@@ -216,6 +216,10 @@ def perturbations(rng: random.Random, desc, path, keys) -> List[Tuple[str, List[
         out.append(("suffix", keys[L:], kind))
     out.append(("type:wrong", keys, rng.choice([k for k in T.ELEMENTS + T.IDENTIFIABLES if k != kind])))
     out.append(("type:abstract", keys, rng.choice(["Referable", "SubmodelElement", "DataElement", "Identifiable", "UniqueIdShortNamespace", "EventElement"])))
+    if len(keys) >= 2:
+        # the element named by the key type of an abstract class it specialises (every submodel element is a SubmodelElement ...)
+        for abstract in ["SUBMODEL_ELEMENT"] + (["DATA_ELEMENT"] if kind in T.DATA_ELEMENTS else []) + (["EVENT_ELEMENT"] if kind == "BasicEventElement" else []):
+            out.append(("keytype:abstract", keys[:-1] + [[abstract, keys[-1][1]]], kind))
     out.append(("root:unknown", [[keys[0][0], "urn:vf:none"]] + keys[1:], kind))
     out.append(("trailing", keys + [["PROPERTY", rng.choice(["a", "0", "nope"])]], "Property"))
     out.append(("trailing:frag", keys + [["FRAGMENT_REFERENCE", "frag"]], kind))
@@ -870,8 +874,13 @@ def judge_chain(case: Case, prov, u: int, d, ks, ty, where) -> Optional[C.Failin
     try:
         keys = tuple(model.Key(getattr(model.KeyTypes, t), v) for t, v in ks)
         ref = model.ModelReference(keys, cls_of(ty))
-    except (ValueError, model.AASConstraintViolation):
-        return None                      # construction of malformed references is C02's subject
+    except (ValueError, model.AASConstraintViolation) as e:
+        # construction of malformed references is C02's subject - but a chain that AASd-123..128 (from their texts) allow, e.g.
+        # one that names an element by the key type of an abstract class it specialises, is a reference to resolve
+        if isinstance(e, model.AASConstraintViolation) and spec_constraints(ks) is None:
+            return C.Failing(f"ref:construct:legal-chain-rejected:aasd{e.constraint_id}", f"ModelReference over {ks} is rejected with AASd-{e.constraint_id}, "
+                             f"the constraints allow the chain", where, ["raise", "AASCV", e.constraint_id], "a reference")
+        return None
     # which root does the provider hold under the first key?
     root_desc = None
     root_uid = None
